@@ -191,22 +191,23 @@ pub fn http_post(addr: &str, body: &[u8], timeout: Duration) -> Result<String, S
             }
         }
     }
-    let text = String::from_utf8_lossy(&resp).to_string();
-    let (head, body) = match text.find("\r\n\r\n") {
-        Some(p) => (text[..p].to_string(), text[p + 4..].to_string()),
+    // split and de-chunk on bytes (a chunk boundary may fall inside a multi-byte character), decode at the end
+    let pos = match resp.windows(4).position(|w| w == b"\r\n\r\n") {
+        Some(p) => p,
         None => return Err(format!("no http response ({} bytes)", resp.len())),
     };
+    let head = String::from_utf8_lossy(&resp[..pos]).to_string();
+    let body: &[u8] = &resp[pos + 4..];
     let status = head.lines().next().unwrap_or("").to_string();
     if !status.contains(" 200") {
         return Err(format!("status: {}", status));
     }
     if head.to_ascii_lowercase().contains("transfer-encoding: chunked") {
-        // de-chunk
-        let mut out = String::new();
-        let mut rest = body.as_str();
+        let mut out: Vec<u8> = vec![];
+        let mut rest = body;
         loop {
-            let Some(p) = rest.find("\r\n") else { break };
-            let n = usize::from_str_radix(rest[..p].trim(), 16).unwrap_or(0);
+            let Some(p) = rest.windows(2).position(|w| w == b"\r\n") else { break };
+            let n = usize::from_str_radix(String::from_utf8_lossy(&rest[..p]).trim(), 16).unwrap_or(0);
             if n == 0 {
                 break;
             }
@@ -214,12 +215,12 @@ pub fn http_post(addr: &str, body: &[u8], timeout: Duration) -> Result<String, S
             if start + n > rest.len() {
                 break;
             }
-            out.push_str(&rest[start..start + n]);
+            out.extend_from_slice(&rest[start..start + n]);
             rest = &rest[(start + n + 2).min(rest.len())..];
         }
-        return Ok(out);
+        return Ok(String::from_utf8_lossy(&out).to_string());
     }
-    Ok(body)
+    Ok(String::from_utf8_lossy(body).to_string())
 }
 
 // ---------------------------------------------------------------- WebSocket (hand-rolled client)
